@@ -164,7 +164,8 @@ def g_prepare(P, tier, tmp, seed, infra):
         P["_programs"] += 1
         V = _os.path.dirname(_os.path.abspath(__file__))
         ddir = _os.path.join(V, "designs", d)
-        files = sorted(_os.path.join(ddir, f) for f in _os.listdir(ddir) if f.startswith("zz_h_" + P["harness_tag"]) and f.endswith(".go"))
+        tag = P.get("harness_tags", {}).get(d, P["harness_tag"])
+        files = sorted(_os.path.join(ddir, f) for f in _os.listdir(ddir) if f.startswith("zz_h_" + tag) and f.endswith(".go"))
         if not files:
             continue
         shared = sorted(_os.path.join(ddir, f) for f in _os.listdir(ddir) if f.startswith("zz_s_") and f.endswith(".go"))
@@ -187,7 +188,7 @@ PROPS["C04"] = {
     "level": "translation_validation",
     "prepare": g_prepare,
     "jobs": [],
-    "designs": ["v1", "v2", "v3", "v4", "v5"],
+    "designs": ["v1", "v2", "v3", "v4", "v5", "v6"],
     "harness_tag": "c04",
     "assert_exclude": r"^openapi:",
     "quick": r"^VerifC04_", "thorough": r"^VerifC04T?_",
@@ -227,6 +228,7 @@ PROPS["C03"] = {
     "jobs": [],
     "designs": ["a1", "a2", "a3", "a5"],
     "harness_tag": "c03",
+    "assert_exclude": r"^openapi:",
     "quick": r"^VerifC03_", "thorough": r"^VerifC03T?_",
     "bounds": {'designs': {'a1': 'result with body attributes (string, int with default, nested user type, array) and two header attributes', 'a2': 'three responses selected by tag value (200/202/201), IPv6-formatted attribute validated by the client'}, 'values': 'full-width symbolic numbers, strings up to 2 bytes'},
     "assumptions": ['HTTP transports header values unchanged; header strings are visible ASCII'],
@@ -251,8 +253,9 @@ PROPS["C05"] = {
     "level": "translation_validation",
     "prepare": g_prepare,
     "jobs": [],
-    "designs": ["e1"],
+    "designs": ["e1", "e2"],
     "harness_tag": "c05",
+    "assert_exclude": r"^openapi:",
     "quick": r"^VerifC05_", "thorough": r"^VerifC05T?_",
     "bounds": {'designs': {'e1': 'service-level error, method errors of ErrorResult, a custom object type shared by two errors on one status (409), a primitive error type; 10 kinds of returned error incl. wrapped, undeclared with every flag vector, plain Go error, custom type with undeclared name'}},
     "assumptions": [],
@@ -266,6 +269,7 @@ PROPS["C08"] = {
     "jobs": [],
     "designs": ["w1", "w2"],
     "harness_tag": "c08",
+    "assert_exclude": r"^openapi:",
     "quick": r"^VerifC08_", "thorough": r"^VerifC08T?_",
     "bounds": {'designs': {'w1': 'result type with views default/tiny, nested result type with per-view override, collection, method with the view fixed in the design', 'w2': 'nested attribute carrying a view at type level and a different per-view override; dynamic and fixed-view methods on one result type'}, 'values': 'symbolic attribute values, view names default/tiny/empty, labels: every string up to 7 visible bytes that is not a defined view'},
     "assumptions": [],
@@ -300,7 +304,7 @@ PROPS["C20"] = {
     },
 }
 
-ALL_DESIGNS = ["v1", "v2", "v3", "v4", "v5", "d1", "a1", "a2", "a3", "a4", "a5", "e1", "s1", "s2", "w1", "w2", "p1", "c1", "c2", "c3", "c4", "c5"]
+ALL_DESIGNS = ["v1", "v2", "v3", "v4", "v5", "v6", "d1", "a1", "a2", "a3", "a4", "a5", "e1", "e2", "s1", "s2", "w1", "w2", "p1", "c1", "c2", "c3", "c4", "c5"]
 
 PROPS["C01"] = {
     "level": "other",
@@ -351,10 +355,12 @@ PROPS["C14"] = {
     "level": "translation_validation",
     "prepare": g_prepare,
     "jobs": [],
-    "designs": ["v1", "v2", "v3", "v4"],
+    "designs": ["v1", "v2", "v3", "v4", "v6", "w1", "w2", "e1", "e2", "a5"],
     "harness_tag": "c04",
+    "harness_tags": {"w1": "c08", "w2": "c08", "e1": "c05", "e2": "c05", "a5": "c03"},
     "assert_include": r"^openapi:|^no-panic$",
-    "quick": r"^VerifC04_v[1234]_(ints|nums|strs|colls|first|second)$", "thorough": r"^VerifC04_v[1234]_(ints|nums|strs|colls|first|second)$",
+    "quick": r"^VerifC04_v[12346]_(ints|nums|strs|colls|first|second|merge|restate)$|^VerifC08_w1_(get|list_fixed)$|^VerifC08_w2|^VerifC05_e[12]_|^VerifC03_a5_(coll_result|tagged_body)$",
+    "thorough": r"^VerifC04_v[12346]_(ints|nums|strs|colls|first|second|merge|restate)$|^VerifC08_w1_(get|list_fixed)$|^VerifC08_w2|^VerifC05_e[12]_|^VerifC03_a5_(coll_result|tagged_body)$",
     "bounds": {"designs": {"v1": "ints (body, query, path, header)", "v2": "floats with exclusive bounds, UInt, strings with length/enum/pattern", "v3": "arrays, maps, nested user types, query array",
                            "v4": "two body types sharing member names, required query parameter with a default"},
                "values": "the symbolic wire requests of the C04 harnesses (same runs, OpenAPI assertions only)"},
